@@ -963,6 +963,18 @@ pub fn run(tier: Tier) -> i32 {
             cases.push(CliCase { shape: s.clone(), to, individuals: false });
         }
     }
+    {
+        let sp: Vec<(Vec<String>, Vec<u8>)> = cases
+            .iter()
+            .filter(|c| c.shape.len() >= 2 || c.to.len() == 1)
+            .map(|c| {
+                let x = RefArray::from_fn(&c.shape, |f, _| ((f * 7) % 11 + 1) as f64);
+                let (flag, arg) = if c.individuals { ("-p", join_usizes(&c.to.iter().map(|t| (t.max(&1) - 1) / 2).collect::<Vec<_>>(), ",")) } else { ("--project-shape", join_usizes(&c.to, ",")) };
+                (vec!["view".to_string(), flag.to_string(), arg, "--precision".to_string(), "10".to_string()], text_of(&x).into_bytes())
+            })
+            .collect();
+        super::spelling_part(&mut rep, "C03", "every projection target of the CLI part, valid and invalid", &sp, &scratch);
+    }
     let res = par_map(cases.len(), |i| eval_cli(&cases[i], &scratch));
     for v in res.into_iter().flatten() {
         rep.violation(v.0, v.1, v.2);
